@@ -308,6 +308,7 @@ fn main() {
     let mut so = std::io::BufWriter::new(stdout.lock());
     let mut cur: Option<(String, String, Vec<String>)> = None;
     let mut buf: Vec<String> = Vec::new();
+    let mut timeouts = 0usize;
     for line in reader.lines() {
         let line = line.unwrap();
         let w: Vec<&str> = line.split_whitespace().collect();
@@ -317,6 +318,10 @@ fn main() {
         } else if w.first() == Some(&"END") {
             if let Some((id, kind, rest)) = cur.take() {
                 // every case runs in its own thread under a watchdog: non-termination is an observation
+                if timeouts >= 3 {
+                    so.write_all(format!("{} SKIPPED\n", id).as_bytes()).unwrap();
+                    continue;
+                }
                 let lines = buf.clone();
                 let id2 = id.clone();
                 let (tx, rx) = std::sync::mpsc::channel::<String>();
@@ -338,9 +343,17 @@ fn main() {
                     })
                     .unwrap();
                 let limit: u64 = std::env::var("VERIF_CASE_TIMEOUT_MS").ok().and_then(|x| x.parse().ok()).unwrap_or(20000);
+                if timeouts >= 3 {
+                    // abandoned threads keep spinning: stop evaluating after three of them
+                    so.write_all(format!("{} SKIPPED\n", id).as_bytes()).unwrap();
+                    continue;
+                }
                 match rx.recv_timeout(std::time::Duration::from_millis(limit)) {
                     Ok(out) => so.write_all(out.as_bytes()).unwrap(),
-                    Err(_) => so.write_all(format!("{} TIMEOUT\n", id).as_bytes()).unwrap(),
+                    Err(_) => {
+                        timeouts += 1;
+                        so.write_all(format!("{} TIMEOUT\n", id).as_bytes()).unwrap()
+                    }
                 }
             }
         } else {
